@@ -144,6 +144,13 @@ func New(opts Options) (CommitLog, error) {
 		return nil, err
 	}
 
+	// The leader epoch checkpoint file could also be behind the log since a
+	// message in a new leader epoch is written to the log before the epoch is
+	// assigned its start offset. Assign the epochs it is missing from the log.
+	if err := l.recoverLeaderEpochs(); err != nil {
+		return nil, err
+	}
+
 	// The earliest leader epoch may not be flushed during a hard failure.
 	// Recover it here.
 	if err := l.leaderEpochCache.ClearEarliest(l.OldestOffset()); err != nil {
@@ -280,6 +287,50 @@ func (l *commitLog) append(segment *segment, ms []byte, entries []*entry) ([]int
 		offsets[i] = entry.Offset
 	}
 	return offsets, nil
+}
+
+// recoverLeaderEpochs assigns the leader epochs of messages in the log which
+// are missing from the leader epoch cache. Leader epochs do not decrease along
+// the log, so these are the epochs of the newest messages.
+func (l *commitLog) recoverLeaderEpochs() error {
+	var (
+		lastLeaderEpoch = l.leaderEpochCache.LastLeaderEpoch()
+		missing         = []*epochOffset{}
+	)
+	// Walk the log backwards up to the newest message whose leader epoch is
+	// known. This yields the missing epochs from latest to earliest.
+SCAN:
+	for i := len(l.segments) - 1; i >= 0; i-- {
+		ss := newReverseSegmentScannerFromEnd(l.segments[i])
+		for {
+			ms, _, err := ss.Scan()
+			if err == io.EOF {
+				break
+			}
+			if err != nil {
+				return errors.Wrap(err, "failed to scan log for leader epochs")
+			}
+			leaderEpoch := ms.LeaderEpoch()
+			if leaderEpoch <= lastLeaderEpoch {
+				break SCAN
+			}
+			if n := len(missing); n > 0 && missing[n-1].leaderEpoch == leaderEpoch {
+				missing[n-1].startOffset = ms.Offset()
+			} else {
+				missing = append(missing, &epochOffset{
+					leaderEpoch: leaderEpoch,
+					startOffset: ms.Offset(),
+				})
+			}
+		}
+	}
+	for i := len(missing) - 1; i >= 0; i-- {
+		err := l.leaderEpochCache.Assign(missing[i].leaderEpoch, missing[i].startOffset)
+		if err != nil {
+			return err
+		}
+	}
+	return nil
 }
 
 // NewestOffset returns the offset of the last message in the log or -1 if
